@@ -26,8 +26,9 @@ RULE = (
     'Later rounds: frequency operands with reciprocal products and ratios (Hz * s, 1 / s against Hz; time and '
     'frequency are never drawn as a mismatch because the units module converts them into each other by '
     'inversion); int nodes defined by expressions; one NumericalSolver re-used after a refused expression; the '
-    'absolute tolerance is scaled with the largest intermediate of the expression (cancelling sums). Distinct = '
-    'distinct case JSON.'
+    'absolute tolerance is scaled with the largest intermediate of the expression (cancelling sums). Rounds 7-8: '
+    'a leading blank-separated minus; != as the negation of ==; integer nodes against float nodes; per-cent '
+    'arguments of exp / log10; nested two-argument functions. Distinct = distinct case JSON.'
 )
 ASSUMPTIONS = [
     "operators are blank-separated as the documentation requires; negative literals are written '-3'",
